@@ -402,12 +402,12 @@ theorem concF_eq_of_good : ∀ (xs xs' : List (Bytes × Val)), ConcF xs xs' → 
     rw [conc_eq_of_good x x' hx g1, concF_eq_of_good xs t1 ht g2]
 end
 
-/-! ### the error half for projections over map-ordered arrays, under a side condition
+/-! ### the error half for projections over map-ordered arrays
 
-  `widen` (the model's treatment of "which element fails first") ignores elements whose outcome is `nondet`,
-  `panic` or `unmodelled` (see `C15B.widen_misses_category`). The lemmas below therefore assume that every element
-  outcome is a value or an error (`Settled`); when `widen` is changed to answer `nondet`/`panic`/`unmodelled` as soon
-  as some element does, `projectArray … = .err cs` will imply that assumption. -/
+  `widen` (the model's treatment of "which element fails first") answers `nondet` for a map-ordered array as soon as
+  the outcome of some element is `nondet`, `panic` or `unmodelled` (see `C15B.widen_unsettled_nondet`). So an error
+  outcome `projectArray … = .err cs` over a map-ordered array implies that every element outcome is a value or an
+  error (`Settled`, `widen_enum_mem`), which is what the any-order argument (`collect_err_perm`) needs. -/
 
 /-- element-level agreement including errors -/
 def SimX (r r' : Res Val) : Prop :=
@@ -533,23 +533,31 @@ theorem collect_err_exists {β} {h : Val → Res (List β)} : ∀ {xs : List Val
     | nondet => rw [hhx] at e; cases e
     | unmodelled w => rw [hhx] at e; cases e
 
-/-- what `widen` adds for a map-ordered array: the categories of every failing element -/
+/-- what `widen` adds for a map-ordered array: the categories of every failing element; and an error outcome means
+    that every element outcome is settled -/
 theorem widen_enum_mem {α} {t : ATag} {xs : List Val} {f : Val → Res Val} {extra cs0 cs : List Cat}
     (he : enum2 t xs = true) (h : widen (α := α) t xs [f] extra (.err cs0) = .err cs) :
-    (∀ c ∈ cs0, c ∈ cs) ∧ ∀ x ∈ xs, ∀ cl, f x = .err cl → ∀ c ∈ cl, c ∈ cs := by
-  simp only [widen, he, if_true, Res.err.injEq] at h
+    (∀ c ∈ cs0, c ∈ cs) ∧ (∀ x ∈ xs, ∀ cl, f x = .err cl → ∀ c ∈ cl, c ∈ cs) ∧ ∀ x ∈ xs, (f x).Settled := by
+  simp only [widen, he, if_true] at h
+  split at h
+  · cases h
+  rename_i hu
+  simp only [Res.err.injEq] at h
   subst h
-  refine ⟨fun c hc => Cat.mem_dedup.mpr (by simp [hc]), fun x hx cl hcl c hc => Cat.mem_dedup.mpr ?_⟩
-  simp only [List.mem_append, List.mem_flatMap]
-  refine .inr ⟨x, hx, f, by simp, ?_⟩
-  rw [hcl]
-  exact hc
+  refine ⟨fun c hc => Cat.mem_dedup.mpr (by simp [hc]), fun x hx cl hcl c hc => Cat.mem_dedup.mpr ?_, fun x hx => ?_⟩
+  · simp only [List.mem_append, List.mem_flatMap]
+    refine .inr ⟨x, hx, f, by simp, ?_⟩
+    rw [hcl]
+    exact hc
+  · cases hfx : f x with
+    | ok v => trivial
+    | err cl => trivial
+    | _ => exact absurd (List.any_eq_true.mpr ⟨x, hx, by simp [hfx]⟩) hu
 
 /-- the shared core: a loop over the elements of `xs` (model) / `xs'` (run) below `widen` -/
 theorem loop_err_any_order {t : ATag} {xs xs' : List Val} {f : Val → Res Val} {g : Nat → Val → Res Val}
     {T : List Val → Val} {T' : List Val → Val}
-    (hp : ConcP xs xs') (hpos : enum2 t xs = false → ConcL xs xs') (hf : SimFnX xs f g)
-    (hset : ∀ x ∈ xs, (f x).Settled) {cs : List Cat}
+    (hp : ConcP xs xs') (hpos : enum2 t xs = false → ConcL xs xs') (hf : SimFnX xs f g) {cs : List Cat}
     (h : widen t xs [f] [] (collect (mapPruneH f) xs >>= fun r => pure (T r)) = .err cs) :
     ∃ c ∈ cs, (collectO (fun i => mapPruneH (g i)) 0 xs' >>= fun r => pure (T' r)) = .err [c] := by
   have hok : ∀ i x x', x ∈ xs → Conc x x' → SimG (All₂ Conc) (mapPruneH f x) (mapPruneH (g i) x') := by
@@ -580,7 +588,7 @@ theorem loop_err_any_order {t : ATag} {xs xs' : List Val} {f : Val → Res Val} 
       obtain ⟨c, hc, e⟩ := collect_err_pos 0 hok herr (hpos he) hloop
       exact ⟨c, hc, by rw [e]; rfl⟩
     | true =>
-      obtain ⟨-, hmem⟩ := widen_enum_mem he h
+      obtain ⟨-, hmem, hset⟩ := widen_enum_mem he h
       obtain ⟨ys, hys, hl⟩ := concP_iff.mp hp
       obtain ⟨x0, hx0, e0⟩ := collect_err_exists hloop
       obtain ⟨y, hy, cl, hcl, c, hc, e⟩ := collect_err_perm (concL_iff.mp hl) 0
@@ -589,15 +597,15 @@ theorem loop_err_any_order {t : ATag} {xs xs' : List Val} {f : Val → Res Val} 
         ⟨x0, hys.mem_iff.mpr hx0, cs0, e0⟩
       exact ⟨c, hmem y (hys.mem_iff.mp hy) cl (mapPruneH_err.mp hcl) c hc, by rw [e]; rfl⟩
 
-/-- **Error half for `[*]` / projections over a (possibly map-ordered) array.** If every element outcome is a
-    value or an error, an error set `cs` of the model contains the category that every run reports. -/
+/-- **Error half for `[*]` / projections over a (possibly map-ordered) array.** An error set `cs` of the model
+    contains the category that every run reports. -/
 theorem projectArray_err_any_order {f : Val → Res Val} {g : Nat → Val → Res Val} {t : ATag} {xs : List Val} {v' : Val}
-    (hv : Conc (.arr t xs) v') (hf : SimFnX xs f g) (hset : ∀ x ∈ xs, (f x).Settled) {cs : List Cat}
+    (hv : Conc (.arr t xs) v') (hf : SimFnX xs f g) {cs : List Cat}
     (h : projectArray f (.arr t xs) = .err cs) : ∃ c ∈ cs, projectArrayO g v' = .err [c] := by
   obtain ⟨t', xs', rfl, _, hp, _, _⟩ := conc_arr hv
   simp only [projectArray, mapPrune_eq_collect] at h
   simp only [projectArrayO, mapPruneO_eq_collect]
-  refine loop_err_any_order hp (fun he => ?_) hf hset h
+  refine loop_err_any_order hp (fun he => ?_) hf h
   obtain ⟨t'', xs'', e, _, hl, _⟩ := conc_arr_pos hv he
   cases e
   exact hl
@@ -605,20 +613,17 @@ theorem projectArray_err_any_order {f : Val → Res Val} {g : Nat → Val → Re
 /-- **Error half for `*` on objects.** -/
 theorem projectObject_err_any_order (π : Oracle) {f : Val → Res Val} {g : Nat → Val → Res Val}
     {kvs : List (Bytes × Val)} {v' : Val} (hv : Conc (.obj kvs) v') (hf : SimFnX (kvs.map Prod.snd) f g)
-    (hset : ∀ kv ∈ kvs, (f kv.2).Settled) {cs : List Cat}
+    {cs : List Cat}
     (h : projectObject f (.obj kvs) = .err cs) : ∃ c ∈ cs, projectObjectO π g v' = .err [c] := by
   obtain ⟨kvs', rfl, hkv⟩ := conc_obj hv
   simp only [projectObject, mapPrune_eq_collect] at h
   simp only [projectObjectO, mapPruneO_eq_collect]
   have hp : ConcP (kvs.map Prod.snd) ((π.members kvs').map Prod.snd) :=
     (concF_values hkv).concP.of_perm_right ((π.members_perm kvs').map _)
-  refine loop_err_any_order hp (fun he => ?_) hf ?_ h
-  · -- fewer than two members: only one order
-    apply hp.concL_of_short
-    simp only [enum2, beq_self_eq_true, Bool.true_and, decide_eq_false_iff_not] at he
-    omega
-  · intro x hx
-    obtain ⟨kv, hkv', rfl⟩ := List.mem_map.mp hx
-    exact hset kv hkv'
+  refine loop_err_any_order hp (fun he => ?_) hf h
+  -- fewer than two members: only one order
+  apply hp.concL_of_short
+  simp only [enum2, beq_self_eq_true, Bool.true_and, decide_eq_false_iff_not] at he
+  omega
 
 end Jmes
